@@ -15,6 +15,10 @@ NOT_APPLICABLE = {
 
 # property -> (engine, category, technique, text, note, design_ref)
 CLAIMED = {
+    'C16': ('ioflow', 'other', 'writer/reader agreement by dataflow over the call sites (table literal, codec, model field), stream-grammar abstraction of each (de)serialiser compared structurally, SQL effect classification of the constant strings reaching sqlite3_exec/prepare with a must-precede (truncate-before-insert) check, mod/ref purity of the writers, format-precision check',
+            'Decides: same tables/codecs/fields on both sides and every container field persisted (one open known finding: PCAMODEL.dmodx); serialiser and deserialiser consume the same grammar and the serialiser allocates what it emits; the history clause as "every write first empties what it fills"; writers do not modify the model; >= 15 fractional digits. SQLite behaviour, text->double rounding and prediction equality after reload are NOT decided.',
+            'Trusted: clang AST; SQL reaches the database only through sqlite3_exec / sqlite3_prepare_v2+step with constant format strings (anything else is classified OTHER and cannot discharge the truncate rule).',
+            'DESIGN.md 2/E9, 3/C16'),
     'C05': ('cv', 'other', 'control-dependence partition analysis of the split code with derived train/test/selector roles, followed by dataflow into the 8 workers (no-leak), selector-consistency by polynomial equality, learner-dispatch exhaustiveness across sibling routines, create/join pairing, predicate dataflow for the rejection-sampling store, index-role typing of the residual columns',
             'Decides the structural clauses: split is a partition by construction, held-out selector == placement selector, fit sees only training data and the held-out response is never used, every learner is dispatched and every thread joined, ids are stored only when fresh, residuals pair matching columns. Equality with an independently refitted model, finiteness, and that the random group matrix is a permutation at value level are NOT decided.',
             'Trusted: clang AST; roles derived from kfold_group_train_test_split control dependence; fit entry points PLS/MLR/EPLS/LDA take (x, y) first. A worker or split routine the rules cannot bind is ANALYSIS-BROKEN.',
